@@ -135,3 +135,9 @@ rule(T, '*', '*', ['decreases'], ['C02'])
 rule(T, 'next', '*', ['post', 'invariant'], ['C02', 'C03'])
 rule(T, 'deserialize_superscript_number', '*', ['post', 'invariant'], ['C02'])
 rule(T, 'new', '*', ['post'], ['C03'])
+# literal arms: maximal-munch scanning, the text handed to the std / rust_decimal conversion, integer vs float vs imaginary
+for arm in ("Some('0'..='9')", "Some('.')"):
+    rule(T, 'next', arm, ['post', 'invariant', 'assert'], ['C19'])
+rule('number-tok', 'next', "Some('0'..='9')", ['post', 'invariant', 'assert'], ['C09'])
+for arm in ("Some('0'..='9')", "Some('.')", "Some('i')"):
+    rule('complex-tok', 'next', arm, ['post', 'invariant', 'assert'], ['C08'])
